@@ -31,7 +31,8 @@ type c19Req struct {
 type c19Scen struct {
 	Router        string   `json:"router"`
 	Trace         bool     `json:"trace_in_concurrent_phase"`
-	RouterHistory bool     `json:"router_set_twice"` // the serving containers first get the other router, then the final one; the reference gets it once
+	RouterHistory bool     `json:"router_set_twice"`                     // the serving containers first get the other router, then the final one; the reference gets it once
+	Helpers       bool     `json:"assembled_with_package_level_helpers"` // restful.Add / restful.Filter / restful.OPTIONSFilter on DefaultContainer
 	Enc           bool     `json:"encoding"`
 	CORS          int      `json:"cors"` // 0 none, 1 computed methods, 2 configured methods
 	Options       bool     `json:"options_filter"`
@@ -53,6 +54,7 @@ func genC19(x *Ctx) *c19Scen {
 	sc.Router = []string{"curly", "jsr311"}[tp.G(2)]
 	sc.Trace = tp.Bool()
 	sc.RouterHistory = tp.Chance(300)
+	sc.Helpers = tp.Chance(250)
 	sc.Enc = tp.Bool()
 	sc.CORS = tp.G(3)
 	sc.Options = tp.Chance(300)
@@ -140,6 +142,14 @@ func c19BuildH(sc *c19Scen, history bool) *restful.Container {
 		c.Router(restful.CurlyRouter{})
 	}
 	c.EnableContentEncoding(sc.Enc)
+	addFilter, addService := c.Filter, func(ws *restful.WebService) { c.Add(ws) }
+	optionsFilter := restful.FilterFunction(c.OPTIONSFilter)
+	if sc.Helpers {
+		// the documented package-level API: everything goes to restful.DefaultContainer
+		restful.DefaultContainer = c
+		addFilter, addService = restful.Filter, restful.Add
+		optionsFilter = restful.OPTIONSFilter()
+	}
 	if sc.CORS > 0 {
 		cors := restful.CrossOriginResourceSharing{
 			AllowedDomains: []string{"http://good.example"}, AllowedHeaders: []string{"X-Custom", "Accept"}, ExposeHeaders: []string{"X-Exposed"},
@@ -147,10 +157,13 @@ func c19BuildH(sc *c19Scen, history bool) *restful.Container {
 		if sc.CORS == 2 {
 			cors.AllowedMethods = []string{"GET", "POST"}
 		}
-		c.Filter(cors.Filter)
+		if sc.Helpers {
+			cors.Container = nil // the filter then asks the default container
+		}
+		addFilter(cors.Filter)
 	}
 	if sc.Options {
-		c.Filter(c.OPTIONSFilter)
+		addFilter(optionsFilter)
 	}
 	mkf := func(level string, i int) restful.FilterFunction {
 		name := fmt.Sprintf("%s%d", level, i)
@@ -165,7 +178,7 @@ func c19BuildH(sc *c19Scen, history bool) *restful.Container {
 		}
 	}
 	for i := 0; i < sc.NC; i++ {
-		c.Filter(mkf("c", i))
+		addFilter(mkf("c", i))
 	}
 	echo := func(req *restful.Request, resp *restful.Response) {
 		y(sim.SiteHandler)
@@ -204,8 +217,8 @@ func c19BuildH(sc *c19Scen, history bool) *restful.Container {
 	ws2 := new(restful.WebService).Path("/v/{tenant}").Produces("application/json")
 	mk(ws2, ws2.GET("/items/{id}"))
 	mk(ws2, ws2.DELETE("/items/{id}"))
-	c.Add(ws1)
-	c.Add(ws2)
+	addService(ws1)
+	addService(ws2)
 	return c
 }
 
